@@ -1864,7 +1864,7 @@ coap_send_q_blocks(coap_session_t *session,
     block_pdu = coap_pdu_duplicate_lkd(pdu, session,
                                        ltoken_length,
                                        ptoken, &drop_options);
-    if (block_pdu->type == COAP_MESSAGE_ACK)
+    if (block_pdu && block_pdu->type == COAP_MESSAGE_ACK)
       block_pdu->type = COAP_MESSAGE_CON;
   }
 
